@@ -61,7 +61,7 @@ var retryMenu = []string{RetrySame, RetryFlow, Ans500Echo, AnsNetErr, Ans404, An
 var tmpForms = []string{"clean", "trailing-slash", "dot-segment", "double-slash", "symlink"}
 var cutMenuN = 4 // 0, 1, len/2, len-1
 
-var payloadKinds = []string{"valid", "gzip-of-nothing", "multi-member", "large", "zero-bytes", "not-gzip", "over-long-line", "blank-and-garbage-lines", "compressed-bytes-without-0x0A"}
+var payloadKinds = []string{"valid", "gzip-of-nothing", "multi-member", "large", "zero-bytes", "not-gzip", "over-long-line", "blank-and-garbage-lines", "compressed-bytes-without-0x0A", "members-split-inside-a-line", "short"}
 
 var payloadCache = map[string][]byte{}
 
@@ -91,6 +91,13 @@ func payloadBytesUncached(kind int, host string) []byte {
 			sb.WriteByte('\n')
 		}
 		return gzBytes([]byte(sb.String()))
+	case "members-split-inside-a-line":
+		// a legal multi-member archive whose member boundaries fall inside lines (an archive cut by byte count)
+		all := line(1) + "\n" + line(2) + "\n" + line(3) + "\n" + line(4) + "\n"
+		a, b := len(line(1))+40, 2*len(line(1))+len(line(2))/2
+		return gzBytes([]byte(all[:a]), []byte(all[a:b]), []byte(all[b:]))
+	case "short":
+		return gzBytes([]byte(line(7) + "\n"))
 	case "zero-bytes":
 		return []byte{}
 	case "not-gzip":
